@@ -967,6 +967,60 @@ theorem storage_root (F : List XFun) : ∀ fuel e (i : Nat), e.isStorage = true 
     | tup _ => simp [XExpr.isStorage] at hst
     | call _ _ => simp [XExpr.isStorage] at hst
 
+/-- A storage expression never evaluates to (a cell of) a constant node. -/
+theorem storage_not_cst (F : List XFun) : ∀ fuel e, e.isStorage = true →
+    RootFrom (fun ρ => ∀ j, ρ ≠ .cst j) (evalX F fuel e)
+  | 0, e, _ => by simp only [evalX]; exact RootFrom.fail _
+  | fuel + 1, e, hst => by
+    cases e with
+    | var k =>
+      intro s x s' h
+      simp only [evalX] at h
+      split at h <;> cases h
+      intro j e; cases e
+    | item r idx =>
+      simp only [XExpr.isStorage] at hst
+      simp only [evalX]
+      refine RootFrom.bind_with (fun s a s1 hm => ?_)
+      refine RootFrom.bind_last (fun c => RootFrom.bind_last (fun _ => RootFrom.pure _ ?_))
+      exact storage_not_cst F fuel r hst s a s1 hm
+    | setItem r idx a =>
+      simp only [XExpr.isStorage] at hst
+      simp only [evalX]
+      refine RootFrom.bind_with (fun s xr s1 hm => ?_)
+      refine RootFrom.bind_with (fun s2 x s3 hr => ?_)
+      have hx := rootFrom_recvCell r xr s2 x s3 hr
+      have hfin : ∀ ρ, (ρ = x.root ∨ IsTmp ρ) → (∀ j, ρ ≠ .cst j) := by
+        intro ρ h1 j e
+        rcases h1 with h1 | h1
+        · rcases hx with hx | hx
+          · exact storage_not_cst F fuel r hst s xr s1 hm j (by rw [← hx, ← h1, e])
+          · rw [← h1, e] at hx; exact hx
+        · rw [e] at h1; exact h1
+      root_chain hfin
+    | mem m r args =>
+      simp only [XExpr.isStorage, Bool.and_eq_true] at hst
+      simp only [evalX]
+      refine RootFrom.bind_with (fun s xr s1 hm => ?_)
+      refine RootFrom.bind_with (fun s2 x s3 hr => ?_)
+      have hx : x.root = xr.root ∨ IsTmp x.root :=
+        (RootFrom.ite (RootFrom.pure xr (Or.inl rfl)) (rootFrom_recvCell r xr)) s2 x s3 hr
+      have hfin : ∀ ρ, (ρ = x.root ∨ IsTmp ρ) → (∀ j, ρ ≠ .cst j) := by
+        intro ρ h1 j e
+        rcases h1 with h1 | h1
+        · rcases hx with hx | hx
+          · exact storage_not_cst F fuel r hst.2 s xr s1 hm j (by rw [← hx, ← h1, e])
+          · rw [← h1, e] at hx; exact hx
+        · rw [e] at h1; exact h1
+      root_chain hfin
+    | cst _ => simp [XExpr.isStorage] at hst
+    | un _ _ => simp [XExpr.isStorage] at hst
+    | bin _ _ _ => simp [XExpr.isStorage] at hst
+    | tab0 => simp [XExpr.isStorage] at hst
+    | tab _ _ => simp [XExpr.isStorage] at hst
+    | tup _ => simp [XExpr.isStorage] at hst
+    | call _ _ => simp [XExpr.isStorage] at hst
+
 /-- **An in-place member changes a variable cell only through a storage receiver rooted at that variable.**
 `xr` is the cell the receiver expression `r` evaluates to, `x` the cell `MemberExpression::receiver()` hands to
 put / insert / delete / concat / set@ (`recvCell`), i.e. the ONLY cell those members write (`wrRecv x …`). If `x` is a
@@ -1031,6 +1085,214 @@ example :
     FlagInvX s ∧ ∃ s1, evalX [] 3 r s = .ok (⟨.var 0, [0]⟩, s1) ∧ recvCell r ⟨.var 0, [0]⟩ s1 = .ok (⟨.var 0, [0]⟩, s1) ∧
       r.isStorage = true ∧ rootVarX r = some 0 := by
   refine ⟨⟨by simp, by simp⟩, _, rfl, rfl, rfl, rfl⟩
+
+/-- The cell an in-place member writes, if it is not a temporary, is the static receiver root of its receiver
+expression (`recvRoot`): the variable a storage expression is rooted at, or the literal node itself. -/
+theorem recv_root_in (F : List XFun) (fuel : Nat) (r : XExpr) (s s1 s2 : XS) (xr x : XLoc)
+    (hinv : FlagInvX s) (hev : evalX F fuel r s = .ok (xr, s1)) (hrc : recvCell r xr s1 = .ok (x, s2))
+    (hnt : NonTmp x.root) : x.root ∈ recvRoot r := by
+  cases hroot : x.root with
+  | tmp i => rw [hroot] at hnt; exact hnt.elim
+  | var i =>
+    obtain ⟨hst, hrv, _⟩ := inplace_only_through_storage F fuel r s s1 s2 xr x i hinv hev hrc hroot
+    cases r <;> simp_all [recvRoot, XExpr.isStorage]
+  | cst j =>
+    have hinv1 : FlagInv s1.st := (evalX_pres F fuel r s xr s1 hinv hev).flagInv hinv
+    have hrc' := hrc
+    simp only [recvCell, XM.bind, xget] at hrc'
+    cases hg : s1.st.getX xr with
+    | none => rw [hg] at hrc'; cases hrc'
+    | some c =>
+      rw [hg] at hrc'
+      simp only at hrc'
+      split at hrc'
+      · have := rootFrom_xalloc c.val s1 x s2 hrc'
+        rw [hroot] at this; exact this.elim
+      · rename_i hcond
+        simp only [XM.pure] at hrc'
+        cases hrc'
+        have hlv : c.lv = true := by
+          unfold Store.getX at hg
+          cases hr : s1.st.root? xr.root with
+          | none => rw [hr] at hg; cases hg
+          | some c0 =>
+            rw [hr] at hg
+            simp only at hg
+            cases hp : c0.val.getP xr.path with
+            | none => rw [hp] at hg; cases hg
+            | some v =>
+              rw [hp] at hg; cases hg
+              rw [hroot] at hr
+              exact flagInv_root hinv1 (r := .cst j) (c := c0) trivial hr
+        have hnst : r.isStorage = false := by
+          cases hs : r.isStorage with
+          | false => rfl
+          | true => exact (storage_not_cst F fuel r hs s xr s1 hev j hroot).elim
+        have hc : r.isCst = true := by
+          cases hs : r.isCst with
+          | true => rfl
+          | false => exact (hcond (by simp [hlv, hnst, hs])).elim
+        cases r <;> simp only [XExpr.isCst] at hc <;> try cases hc
+        rename_i k
+        cases fuel with
+        | zero => simp only [evalX, XM.fail] at hev; cases hev
+        | succ n =>
+          simp only [evalX] at hev
+          split at hev <;> cases hev
+          cases hroot
+          simp [recvRoot]
+
+/-- silent primitive steps of the footprint proof -/
+macro "logs_prim" : tactic => `(tactic| first
+  | exact Logs.silent (silent_pure _) | exact Logs.silent (silent_fail _) | exact Logs.silent (silent_lift _)
+  | exact Logs.silent (silent_xalloc _) | exact Logs.silent (silent_xlval1 _ _) | exact Logs.silent (silent_xlval2 _ _ _)
+  | exact Logs.silent (silent_xplace _ _ _ _) | exact Logs.silent (silent_atResult _ _ _ _)
+  | refine Logs.bind_silent (silent_xget _) (pres_xget _) (fun _ => ?_)
+  | refine Logs.bind_silent (silent_lift _) (Pres.lift _) (fun _ => ?_)
+  | refine Logs.bind_silent silent_logLen pres_logLen (fun _ => ?_)
+  | refine Logs.bind_silent (silent_checkHeld _ _) (pres_checkHeld _ _) (fun _ => ?_)
+  | refine Logs.bind_silent (silent_takeArg _) (pres_takeArg _) (fun _ => ?_)
+  | apply Logs.ite)
+
+macro "logs_auto" ih:ident ihp:ident : tactic => `(tactic| repeat (first
+  | logs_prim
+  | refine Logs.bind' (Logs.mono (by intro ρ h; simp [h]) ($ih _)) ($ihp _) (fun _ => ?_)))
+
+macro "logs_mem" ih:ident ihp:ident hx:ident : tactic => `(tactic| repeat (first
+  | contradiction
+  | exact logs_finishInPlace _ _ _ _ _ (fun hnt => by have hmem := $hx (by decide) hnt; simp [hmem])
+  | exact Logs.bind' (logs_wrRecv _ _ (fun hnt => by have hmem := $hx (by decide) hnt; simp [hmem])) (pres_wrRecv _ _) (fun _ => Logs.silent (silent_pure _))
+  | logs_prim
+  | refine Logs.bind' (Logs.mono (by intro ρ h; simp [h]) ($ih _)) ($ihp _) (fun _ => ?_)))
+
+/-- **(a'), static: the dynamic log is inside the static footprint.** For every function table, fuel and expression:
+whatever an evaluation from a state satisfying the flag invariant adds to the log lies in `fpE F fuel e`, a list computed
+from the program text alone. With `evalX_frame`: every variable slot and constant node outside `fpE F fuel e` (and not
+logged before) is untouched by evaluating `e`. -/
+theorem evalX_logs (F : List XFun) : ∀ fuel e, Logs (fpE F fuel e) (evalX F fuel e)
+  | 0, e => by simp only [evalX]; exact Logs.silent (silent_fail _)
+  | fuel + 1, e => by
+    have ih := evalX_logs F fuel
+    have ihp := evalX_pres F fuel
+    cases e with
+    | cst i =>
+      refine Logs.silent (fun s a s' h => ?_)
+      simp only [evalX] at h
+      split at h <;> cases h
+      rfl
+    | var i =>
+      refine Logs.silent (fun s a s' h => ?_)
+      simp only [evalX] at h
+      split at h <;> cases h
+      rfl
+    | un op a => simp only [evalX, fpE]; logs_auto ih ihp
+    | bin op a b => simp only [evalX, fpE]; logs_auto ih ihp
+    | item r idx => simp only [evalX, fpE]; logs_auto ih ihp
+    | tab0 => simp only [evalX, fpE]; logs_auto ih ihp
+    | tab n a =>
+      simp only [evalX, fpE]
+      refine Logs.bind' (Logs.mono (by intro ρ h; simp [h]) (ih _)) (ihp _) (fun x0 => ?_)
+      refine Logs.bind_silent (silent_xget _) (pres_xget _) (fun c0 => ?_)
+      apply Logs.ite
+      · logs_auto ih ihp
+      · refine Logs.bind_silent (silent_lift _) (Pres.lift _) (fun k => ?_)
+        apply Logs.ite
+        · logs_prim
+        · apply Logs.ite
+          · logs_prim
+          · refine Logs.bind' (Logs.mono (by intro ρ h; simp [h]) (ih _)) (ihp _) (fun x1 => ?_)
+            refine Logs.bind_silent (silent_xget _) (pres_xget _) (fun c1 => ?_)
+            refine Logs.bind_silent (silent_lift _) (Pres.lift _) (fun hd => ?_)
+            apply Logs.ite
+            · logs_prim
+            · refine Logs.bind_silent (silent_takeArg _) (pres_takeArg _) (fun v1 => ?_)
+              refine Logs.bind' (logs_tabStep (Logs.mono (by intro ρ h; simp [h]) (ih a)) (ihp a) _ _ _) (pres_tabStep (ihp a) _ _ _) (fun es => ?_)
+              logs_prim
+    | tup args =>
+      simp only [evalX, fpE]
+      split
+      · logs_prim
+      · refine Logs.bind' (logs_tupStep ihp _ _ (fun a ha => Logs.mono ?_ (ih a))) (pres_tupStep ihp _ _) (fun items => ?_)
+        · intro ρ h
+          exact List.mem_flatten.mpr ⟨_, List.mem_map.mpr ⟨a, ha, rfl⟩, h⟩
+        · logs_prim
+    | call f args =>
+      simp only [evalX, fpE]
+      cases hfn : F[f]? with
+      | none => simp only; logs_prim
+      | some fn =>
+        simp only
+        apply Logs.ite
+        · logs_prim
+        · refine Logs.of_at (fun s => ?_)
+          refine LogsAt.bind (LogsAt.of (logs_bindArgs ihp _ _ _ (fun a ha => Logs.mono ?_ (ih a))) s) (pres_bindArgs ihp _ _ _) (fun callee s1 hi hb => ?_)
+          · intro ρ h
+            apply List.mem_append_left
+            exact List.mem_flatten.mpr ⟨_, List.mem_map.mpr ⟨a, ha, rfl⟩, h⟩
+          · have hfl := bindArgs_flagged (evalX F fuel) args 0 (calleeStore fn) s callee s1 (varsFlagged_callee fn) hb
+            refine LogsAt.of ?_ s1
+            refine Logs.bind' (logs_inCallee (logs_execBody ihp ih fn.body) callee hfl ?_) (pres_inCallee (pres_execBody ihp fn.body) callee hfl) (fun ret => ?_)
+            · intro ρ hρ hc
+              apply List.mem_append_right
+              exact List.mem_filter.mpr ⟨bodyFp_cst _ _ _ hρ hc, hc⟩
+            · cases ret <;> logs_prim
+    | setItem r idx a =>
+      simp only [evalX, fpE]
+      refine Logs.of_at (fun s => ?_)
+      refine LogsAt.bind (LogsAt.of (Logs.mono (by intro ρ h; simp [h]) (ih r)) s) (ihp r) (fun xr s1 hi hm => ?_)
+      refine LogsAt.bind (LogsAt.silent (silent_recvCell r xr)) (pres_recvCell r xr) (fun x s2 _ hrc => ?_)
+      have hx : NonTmp x.root → x.root ∈ recvRoot r := recv_root_in F fuel r s s1 s2 xr x hi hm hrc
+      refine LogsAt.of ?_ s2
+      refine Logs.bind_silent (silent_xget _) (pres_xget _) (fun c => ?_)
+      apply Logs.ite
+      · logs_prim
+      · refine Logs.bind_silent silent_logLen pres_logLen (fun n0 => ?_)
+        refine Logs.bind' (Logs.mono (by intro ρ h; simp [h]) (ih a)) (ihp a) (fun x0 => ?_)
+        refine Logs.bind_silent (silent_checkHeld _ _) (pres_checkHeld _ _) (fun _ => ?_)
+        refine Logs.bind_silent (silent_xget _) (pres_xget _) (fun c' => ?_)
+        refine Logs.bind_silent (silent_xget _) (pres_xget _) (fun c0 => ?_)
+        refine Logs.bind_silent (silent_lift _) (Pres.lift _) (fun rr => ?_)
+        refine Logs.bind_silent (silent_takeArg _) (pres_takeArg _) (fun _ => ?_)
+        refine Logs.bind' (logs_wrRecv x rr.2 (fun hnt => by simp [hx hnt])) (pres_wrRecv _ _) (fun _ => ?_)
+        logs_prim
+    | mem m r args =>
+      simp only [evalX, fpE]
+      refine Logs.of_at (fun s => ?_)
+      refine LogsAt.bind (LogsAt.of (Logs.mono (by intro ρ h; simp [h]) (ih r)) s) (ihp r) (fun xr s1 hi hm => ?_)
+      have hargs : ∀ a ∈ args, ∀ ρ ∈ fpE F fuel a, ρ ∈ (match m with | .count => [] | .at => [] | _ => recvRoot r) ++ fpE F fuel r ++ (args.map (fpE F fuel)).flatten := by
+        intro a ha ρ h
+        apply List.mem_append_right
+        exact List.mem_flatten.mpr ⟨_, List.mem_map.mpr ⟨a, ha, rfl⟩, h⟩
+      refine LogsAt.bind (LogsAt.silent ?_) (Pres.ite (Pres.pure _) (pres_recvCell r xr)) (fun x s2 _ hrc => ?_)
+      · intro s' a' s'' h
+        split at h
+        · exact silent_pure _ s' a' s'' h
+        · exact silent_recvCell _ _ s' a' s'' h
+      have hx : (m == .count || m == .at) = false → NonTmp x.root → x.root ∈ recvRoot r := by
+        intro hc hnt
+        rw [hc] at hrc
+        exact recv_root_in F fuel r s s1 s2 xr x hi hm (by simpa using hrc) hnt
+      refine LogsAt.of ?_ s2
+      refine Logs.bind_silent silent_logLen pres_logLen (fun n0 => ?_)
+      cases m <;> simp only [] <;> (split <;> logs_mem ih ihp hx)
+
+/-- **(a) with the static footprint.** Evaluating `e` from a state with an empty log and the flag invariant: every
+variable slot and every constant node that does not occur in `fpE F fuel e` — a list computed from the text of `e`
+and of the functions it calls — is untouched (whole cell: value with all elements, and flag). -/
+theorem evalX_frame_static (F : List XFun) (fuel : Nat) (e : XExpr) (s s' : XS) (x : XLoc) (hinv : FlagInvX s)
+    (hlog : s.log = []) (h : evalX F fuel e s = .ok (x, s')) (r : Loc) (hr : NonTmp r) (hn : r ∉ fpE F fuel e) :
+    s'.st.root? r = s.st.root? r := by
+  obtain ⟨l, e1, hl⟩ := evalX_logs F fuel e s x s' hinv h
+  refine (evalX_frame F fuel e s s' x hinv h).2.1 r hr ?_
+  rw [e1, hlog, List.append_nil]
+  exact fun hm => hn (hl r hm)
+
+/-- The static footprint of `x1.put(0, x0.at(1)) + (x2 + null).concat("s").count()` is {x1}: `x0` is only read, the
+receiver `(x2 + null)` is not a storage expression. -/
+example :
+    fpE [] 6 (.bin .add (.mem .put (.var 1) [.cst 0, .mem .at (.var 0) [.cst 1]])
+                        (.mem .count (.mem .concat (.bin .add (.var 2) (.cst 2)) [.cst 3]) [])) = [.var 1] := by
+  rfl
 
 end Extended
 
